@@ -68,7 +68,8 @@ C_Call == /\ IsEv("CheckCall") /\ run.st = "grp" /\ Ev.c \in run.pend
 C_Mod  == /\ IsEv("ModCall") /\ run.st = "mod" /\ Ev.r = run.r /\ Ev.blk = RouteOf(cfg, run.r)
           /\ Ev.res = (IF run.r \in cfg.mfail THEN "err" ELSE "ok")
           /\ Mod
-C_Tgt  == /\ IsEv("TgtCall") /\ cfg.kind \in {"pipe", "rpipe"} /\ run.st = "tgt"
+C_Rel  == /\ IsEv("TgtCall") /\ Ev.tgt = "Q1" /\ Ev.op = "relay" /\ Ev.res = "ok" /\ Ev.q = metaQ /\ Relay
+C_Tgt  == /\ IsEv("TgtCall") /\ cfg.kind \in {"pipe", "rpipe", "qpipe"} /\ run.st = "tgt"
           /\ \E x \in run.tq :
                /\ x.t = Ev.tgt /\ x.op = Ev.op /\ Ev.res = TgtRes(x) /\ Ev.q = metaQ
                /\ Ev.arg = (IF x.op = "rcpt" THEN run.r ELSE "")
@@ -79,7 +80,7 @@ C_Rem  == /\ IsEv("TgtCall") /\ cfg.kind = "remote" /\ Ev.tgt = "remote" /\ Ev.q
 C_Ret  == IsEv("Ret") /\ run.st = "ret" /\ run.op = Ev.op /\ run.r = Ev.r /\ run.res = Ev.res /\ Ret
 C_End  == IsEv("End") /\ End
 
-Conform == C_Cmd \/ C_Call \/ C_Mod \/ C_Tgt \/ C_Rem \/ C_Ret \/ C_End
+Conform == C_Cmd \/ C_Call \/ C_Mod \/ C_Tgt \/ C_Rel \/ C_Rem \/ C_Ret \/ C_End
 
 C_Step ==
   /\ ~drift
